@@ -228,11 +228,15 @@ def shard_accessor(spec, R):
         p = float([0.5, rng.uniform(0.05, 0.95), 0.01, 0.99, rng.uniform(0.05, 0.95)][it % 5])  # 0.5 is a value people special-case
         llas = S.gen_llas(rng)
         lcv = None
+        # the grid as the caller may hold it: a float64 array, a slice of a longer table (strided), a list, float32
+        sr_kind = H.pick(it, 3, 4)
+        srange_arg = [llas, S.present(np.asarray(llas, dtype=np.float64), np.float64)[0], [float(v) for v in llas], llas][sr_kind]
+        R.count(f"accessor_srange_{['array', 'view', 'list', 'array'][sr_kind]}")
         if mode == 0:
-            ds = da.hdc.whit.whitsvc(nodata=nodata, srange=llas)
+            ds = da.hdc.whit.whitsvc(nodata=nodata, srange=srange_arg)
             variant, pp = "ws2doptv", None
         elif mode == 1:
-            ds = da.hdc.whit.whitsvc(nodata=nodata, srange=llas, p=p)
+            ds = da.hdc.whit.whitsvc(nodata=nodata, srange=srange_arg, p=p)
             variant, pp = "ws2doptvp", p
         else:
             lcv = rng.choice([-1, 0, 0.5, 0.51, 1.0, np.nan, 0.3, 0.8], (ny, nx))
